@@ -5,7 +5,7 @@ import Driver.C20
 /-! Driver channel `c19` — see `harness/src/c19.rs` for the op-line grammar. -/
 namespace Driver.C19
 open Rustic.Backends Rustic.Cache Driver
-open Driver.C20 (dataOf digest tpeOf joinOr sortStrs fmtListing layout goodPath)
+open Driver.C20 (dataOf digest tpeOf joinOr sortStrs fmtListing goodPath)
 
 def L : Nat := Rustic.Gen.ID_HEX_LEN
 
@@ -27,11 +27,25 @@ def idOf (s : String) : Option Name :=
 def tIdx : FileType → Nat
   | .config => 0 | .index => 1 | .key => 2 | .snapshot => 3 | .pack => 4
 
+/-- `dirs`: every path known to be a directory of the cache dir (planted with `m`, or a parent made for a plant) -/
 structure D where
   be : BeL
   cache : FS
+  dirs : List Path := []
 
-def D.st (d : D) : St := { be := fun k => bget d.be k, cache := d.cache }
+def D.st (d : D) : St := { be := fun k => bget d.be k, cache := d.cache, dirs := d.dirs }
+
+def pathOf (p : String) : Path := (p.splitOn "/").map String.toList
+
+/-- the non-empty proper prefixes of a path (its parent directories), shortest first -/
+def parents (p : Path) : List Path := (List.range p.length).filterMap (fun n => if n = 0 then none else some (p.take n))
+
+def addDirs (dirs : List Path) (ps : List Path) : List Path := ps.foldl (fun acc q => if acc.contains q then acc else acc ++ [q]) dirs
+
+/-- regular files `path:size`, and the directories at depth ≥ 3 (those only plants create) as `path/` -/
+def layoutC (d : D) : String :=
+  joinOr (d.cache.map (fun e => "/".intercalate (e.1.map String.ofList) ++ ":" ++ toString e.2.length)
+    ++ (d.dirs.filter (fun q => q.length ≥ 3)).map (fun q => "/".intercalate (q.map String.ofList) ++ "/"))
 
 def resStr : Res Bytes → String
   | .ok b => digest b
@@ -44,7 +58,7 @@ def stepOne (d : D) (s : String) : Option (String × D) :=
     | some t, some id, some x =>
       if h = "c" then
         let s' := writeBytes d.st t id (cb = "1") x
-        some ("ok", { be := bput d.be (t, id) x, cache := s'.cache })
+        some ("ok", { d with be := bput d.be (t, id) x, cache := s'.cache })
       else if h = "u" then some ("ok", { d with be := bput d.be (t, id) x })
       else none
     | _, _, _ => none
@@ -53,7 +67,7 @@ def stepOne (d : D) (s : String) : Option (String × D) :=
     | some t, some id =>
       if h = "c" then
         let s' := remove d.st t id (cb = "1")
-        some ("ok", { be := bdel d.be (t, id), cache := s'.cache })
+        some ("ok", { d with be := bdel d.be (t, id), cache := s'.cache })
       else if h = "u" then some ("ok", { d with be := bdel d.be (t, id) })
       else none
     | _, _ => none
@@ -88,10 +102,29 @@ def stepOne (d : D) (s : String) : Option (String × D) :=
     | none => none
   | ["s", p, data] =>
     if !goodPath p then none else
-    (dataOf data).map (fun x => ("ok", { d with cache := fput d.cache ((p.splitOn "/").map String.toList) x }))
+    (dataOf data).map (fun x =>
+      let q := pathOf p
+      -- `create_dir_all(parent)` then `fs::write`: fails on a directory, and below a regular file
+      if hasDir d.dirs q || (parents q).any (fun r => (fget d.cache r).isSome) then ("err", d)
+      else ("ok", { d with cache := fput d.cache q x, dirs := addDirs d.dirs (parents q) }))
+  | ["m", p] =>
+    if !goodPath p then none else
+    let q := pathOf p
+    -- `create_dir_all`: fails when the path or one of its parents is a regular file
+    if (fget d.cache q).isSome || (parents q).any (fun r => (fget d.cache r).isSome) then some ("err", d)
+    else some ("ok", { d with dirs := addDirs d.dirs (parents q ++ [q]) })
+  | ["t", p, n] =>
+    if !goodPath p then none else
+    match n.toNat? with
+    | none => none
+    | some n =>
+      let q := pathOf p
+      match (if hasDir d.dirs q then none else fget d.cache q) with
+      | some x => some ("ok", if n < x.length then { d with cache := fput d.cache q (x.take n) } else d)
+      | none => some ("ok", d)
   | ["x", p] =>
-    if !goodPath p then none else some ("ok", { d with cache := fdel d.cache ((p.splitOn "/").map String.toList) })
-  | ["f"] => some (layout d.cache, d)
+    if !goodPath p then none else some ("ok", { d with cache := fdel d.cache (pathOf p) })
+  | ["f"] => some (layoutC d, d)
   | ["b"] =>
     some (joinOr (d.be.map (fun e => toString (tIdx e.1.1) ++ "/" ++ String.ofList e.1.2 ++ ":" ++ digest e.2)), d)
   | _ => none
